@@ -1242,6 +1242,77 @@ def gen_thresholds(root):
     return '\n'.join(out) + '\n'
 
 
+
+def gen_stylesheet(root):
+    """the base style sheet of `CellBuffer::style` (the `sauron::jss!` block) as data: rules in source order, each a
+    selector and its declarations; a value is a literal or one of the settings"""
+    path = os.path.join(root, 'crates/svgbob/src/buffer/cell_buffer.rs')
+    src = read(path)
+    m = re.search(r'sauron::jss!\s*\{', src)
+    if not m:
+        raise GenError('%s: no sauron::jss! block' % path)
+    i = m.end()
+    depth = 1
+    j = i
+    while j < len(src) and depth:
+        if src[j] == '{':
+            depth += 1
+        elif src[j] == '}':
+            depth -= 1
+        j += 1
+    block = re.sub(r'/\*.*?\*/', '', src[i:j - 1], flags=re.S)
+    block = re.sub(r'//[^\n]*', '', block)
+    values = {
+        'stroke_color.clone()': '.strokeColor', 'stroke_color': '.strokeColor', 'stroke_width': '.strokeWidth',
+        'background.clone()': '.background', 'background': '.background', 'fill_color': '.fillColor',
+        'fill_color.clone()': '.fillColor', 'font_family': '.fontFamily', 'font_family.clone()': '.fontFamily',
+        'px(font_size)': '.fontSizePx',
+    }
+    rules = []
+    pos = 0
+    rule_re = re.compile(r'\s*"([^"]*)"\s*:\s*\{([^{}]*)\}\s*,?', re.S)
+    while True:
+        rm = rule_re.match(block, pos)
+        if not rm:
+            break
+        sel, body = rm.group(1), rm.group(2)
+        decls = []
+        for part in body.split(','):
+            part = part.strip()
+            if not part:
+                continue
+            dm = re.match(r'^([a-z_]+)\s*:\s*(.+)$', part, re.S)
+            if not dm:
+                raise GenError('%s: cannot read the declaration %r of rule %r' % (path, part, sel))
+            name, val = dm.group(1).replace('_', '-'), dm.group(2).strip()
+            if re.match(r'^"[^"\\]*"$', val):
+                lean = '.lit "%s"' % val[1:-1]
+            elif re.match(r'^[0-9]+$', val):
+                lean = '.lit "%s"' % val
+            elif val in values:
+                lean = values[val]
+            else:
+                raise GenError('%s: value %r of %s in rule %r is not understood' % (path, val, name, sel))
+            decls.append((name, lean))
+        rules.append((sel, decls))
+        pos = rm.end()
+    if block[pos:].strip():
+        raise GenError('%s: cannot read the jss! block from %r on' % (path, block[pos:].strip()[:60]))
+    if not rules:
+        raise GenError('%s: empty jss! block' % path)
+    out = ['-- GENERATED by tools/gen_tables.py from crates/svgbob/src/buffer/cell_buffer.rs (CellBuffer::style) — do not edit',
+           'import Svgbob.Model.Style', 'namespace Svgbob.Gen',
+           '/-- the rules of the `sauron::jss!` block in source order -/',
+           'def styleRules : List (String × List (String × StyleVal)) := [']
+    lines = []
+    for sel, decls in rules:
+        lines.append('  ("%s", [%s])' % (sel, ', '.join('("%s", %s)' % (n, v) for n, v in decls)))
+    out.append(',\n'.join(lines))
+    out.append(']')
+    out.append('end Svgbob.Gen')
+    return '\n'.join(out) + '\n'
+
+
 def main(argv):
     if len(argv) != 3:
         sys.stderr.write('usage: gen_tables.py <repo_root> <out_dir>\n')
@@ -1268,6 +1339,7 @@ def main(argv):
         circle_lean = render_circle(p, skip, crows)
         consts_lean = gen_consts(root)
         thresholds_lean = gen_thresholds(root)
+        style_lean = gen_stylesheet(root)
     except GenError as e:
         sys.stderr.write('error: %s\n' % e)
         return 1
@@ -1276,7 +1348,7 @@ def main(argv):
     status = []
     for name, content in (('AsciiTable.lean', ascii_lean), ('UnicodeTable.lean', unicode_lean),
                           ('CircleArt.lean', circle_lean), ('Consts.lean', consts_lean),
-                          ('Thresholds.lean', thresholds_lean)):
+                          ('Thresholds.lean', thresholds_lean), ('StyleSheet.lean', style_lean)):
         changed = write_if_changed(os.path.join(out_dir, name), content)
         status.append('%s %s' % (name, 'written' if changed else 'unchanged'))
 
